@@ -136,6 +136,42 @@ MUTS = [
   "self.subarrays = subs = [Subarray(ants, corrprods)]", "self.subarrays = subs = [Subarray(ants, sorted(tuple(cp) for cp in corrprods))]"),
  ('M59 v3: subarray products listed with the two inputs swapped', 'katdal/h5datav3.py',
   "self.subarrays = [Subarray(ants, corrprods)]", "self.subarrays = [Subarray(ants, [(b, a) for a, b in corrprods])]"),
+ # ---- round 4: several spectral windows / subarrays (seeded C01-9 and its neighbourhood)
+ ('M60 seeded C01-9: dumps restricted to the active window / subarray only when that changes', 'PATCH',
+  '/verif/seeded/C01-9/patch.diff', ''),
+ ('M61 select: a change of window restarts the frequency axis only', 'katdal/dataset.py',
+  "            reset += 'TF'\n", "            reset += 'F'\n"),
+ ('M62 select: dumps restricted to the PREVIOUS window (the time base compares with the old self.spw)', 'katdal/dataset.py',
+  "        if spw != self.spw:\n            reset += 'TF'\n            self.spw = spw\n        if subarray != self.subarray:\n            reset += 'TB'\n            self.subarray = subarray\n        # Reset the selection flags on the appropriate dimensions\n        if 'T' in reset:\n            self._time_keep[:] = True\n            self._time_keep &= (self.sensor.get('Observation/spw_index') == spw)",
+  "        prev_spw = self.spw if self.spw >= 0 else spw\n        if spw != self.spw:\n            reset += 'TF'\n            self.spw = spw\n        if subarray != self.subarray:\n            reset += 'TB'\n            self.subarray = subarray\n        # Reset the selection flags on the appropriate dimensions\n        if 'T' in reset:\n            self._time_keep[:] = True\n            self._time_keep &= (self.sensor.get('Observation/spw_index') == prev_spw)"),
+ ('M63 select: freqs always those of window 0', 'katdal/dataset.py',
+  "self.freqs = self.channel_freqs = self.spectral_windows[self.spw].channel_freqs[self._freq_keep]",
+  "self.freqs = self.channel_freqs = self.spectral_windows[0].channel_freqs[self._freq_keep]"),
+ ('M64 v2: spectral windows listed by increasing centre frequency, spw_index by first appearance', 'katdal/h5datav2.py',
+  "for spw_centre in centre_freq.unique_values]", "for spw_centre in sorted(centre_freq.unique_values)]"),
+ ('M65 select: the bare select() keeps all dumps (no window restriction when nothing is given)', 'katdal/dataset.py',
+  "            self._time_keep &= (self.sensor.get('Observation/spw_index') == spw)",
+  "            self._time_keep &= (self.sensor.get('Observation/spw_index') == spw) | (len(kwargs) == 2)"),
+ ('M66 select: time criteria with an explicit reset keep the dumps of all windows', 'katdal/dataset.py',
+  "        if 'T' in reset:\n            self._time_keep[:] = True\n            self._time_keep &= (self.sensor.get('Observation/spw_index') == spw)",
+  "        if 'T' in reset:\n            self._time_keep[:] = True\n            self._time_keep &= (self.sensor.get('Observation/spw_index') == spw) | ('T' in kwargs.get('reset', ''))"),
+ ('M67 v2: the window of every dump decided on the dump START times without time_offset', 'katdal/h5datav2.py',
+  "self.sensor['Observation/spw_index'] = CategoricalData(centre_freq.indices, centre_freq.events)",
+  "self.sensor['Observation/spw_index'] = CategoricalData(centre_freq.indices, np.r_[0, np.minimum(np.array(centre_freq.events[1:-1]) + 1, centre_freq.events[-1] - 1), centre_freq.events[-1]].astype(int) if len(centre_freq.events) > 2 else centre_freq.events)"),
+ ('M68 select: a change of window does not restart the frequency axis (stale channel selection kept)', 'katdal/dataset.py',
+  "            reset += 'TF'\n", "            reset += 'T'\n"),
+ ('M69 select: the subarray comparison dropped from the time base', 'katdal/dataset.py',
+  "            self._time_keep &= (self.sensor.get('Observation/subarray_index') == subarray)\n", ""),
+ ('M70 select: a change of subarray restarts the product axis only', 'katdal/dataset.py',
+  "            reset += 'TB'\n", "            reset += 'B'\n"),
+ ('M71 select: corr_products always those of subarray 0', 'katdal/dataset.py',
+  "self.corr_products = self.subarrays[self.subarray].corr_products[self._corrprod_keep]",
+  "self.corr_products = self.subarrays[0].corr_products[self._corrprod_keep]"),
+ ('M72 select: dumps restricted to the active SUBARRAY only when the subarray changes (window half left alone)', 'katdal/dataset.py',
+  "        if subarray != self.subarray:\n            reset += 'TB'\n            self.subarray = subarray\n        # Reset the selection flags on the appropriate dimensions\n        if 'T' in reset:\n            self._time_keep[:] = True\n            self._time_keep &= (self.sensor.get('Observation/spw_index') == spw)\n            self._time_keep &= (self.sensor.get('Observation/subarray_index') == subarray)\n            for key in time_selectors:\n                self._selection.pop(key, None)\n",
+  "        sub_changed = subarray != self.subarray\n        if sub_changed:\n            reset += 'TB'\n            self.subarray = subarray\n        # Reset the selection flags on the appropriate dimensions\n        if 'T' in reset:\n            self._time_keep[:] = True\n            self._time_keep &= (self.sensor.get('Observation/spw_index') == spw)\n            for key in time_selectors:\n                self._selection.pop(key, None)\n        if sub_changed:\n            self._time_keep &= (self.sensor.get('Observation/subarray_index') == subarray)\n"),
+ ('M73 concatenation: spw_index of the parts not remapped to the merged windows', 'katdal/concatdata.py',
+  "            d.sensor['Observation/spw_index'] = CategoricalData(split_spw[n].indices, split_spw[n].events)\n", ""),
 ]
 only = sys.argv[1:]
 res = []
